@@ -10,11 +10,12 @@ altfont -1..9 (rarely the storable 10..15), sizepos normal/superscript/subscript
 boundaries 7/8, 15/16, colors-1/colors, 255, the parameter-count boundary 16 of `int params[16]`, requests that
 change nothing, and requests that make everything default (the empty-SGR shortcut).
 
-The generator tracks the logical pen so that it can (a) produce many genuine no-op requests and (b) keep the
-inputs that trigger the *known* findings of C10 (known/C10.json) out of the main stream: those are produced
-deliberately, in a small number of histories placed at the END of the file, so that they never use up the
-per-run budget of histories bin/check examines.  Tiers: quick, thorough (x10), exhaustive (every history of
-<= 3 requests over a pen basis, for every configuration).
+The generator tracks the logical pen so that it can (a) produce many genuine no-op requests (also with colours beyond the
+palette, which used to be re-sent) and requests that need 17..19 SGR parameters (which used to overflow params[16]) and
+(b) keep the inputs that trigger the *remaining* known findings of C10 (known/C10.json: curly underline without colon
+sub-parameters, TICKIT_PEN_SIZEPOS_SMALL) out of the main stream: those are produced deliberately, in a small number of
+histories placed at the END of the file, so that they never use up the per-run budget of histories bin/check examines.
+Tiers: quick, thorough (x10), exhaustive (every history of <= 3 requests over a pen basis, for every configuration).
 """
 import argparse, random, json, itertools, collections
 
@@ -27,7 +28,6 @@ rng = random.Random(a.seed * 7919 + 17)
 ATTRS = ["fg", "bg", "b", "u", "i", "rv", "strike", "af", "blink", "sizepos"]
 BOOLS = ["b", "i", "rv", "strike", "blink"]
 DEFAULT = {"fg": (-1, None), "bg": (-1, None), "b": 0, "u": 0, "i": 0, "rv": 0, "strike": 0, "af": 0, "blink": 0, "sizepos": 0}
-PARAMS_CAP = 16     # only used to classify inputs; the model reads the real capacity from the source
 
 stats = collections.Counter()
 
@@ -97,15 +97,10 @@ def triggers(cfg, l, p, is_set):
     """the known findings this request would run into"""
     t = set()
     eff = total(p) if is_set else p
-    if cfg["kind"] == "x" and delta_params(cfg, l, p, is_set) > PARAMS_CAP:
-        t.add("overflow")
-    if not cfg["colon"] and eff.get("u", 0) >= 2:
+    if not cfg["colon"] and eff.get("u", 0) >= 3:
         t.add("under")
     if eff.get("sizepos", 0) == 1:
         t.add("small")
-    l2 = total(p) if is_set else overlay(l, p)
-    if l2 == l and any(k in eff and eff[k][0] >= cfg["colors"] for k in ("fg", "bg")):
-        t.add("reemit")
     return t
 
 
@@ -128,7 +123,7 @@ def value(cfg, k, allow):
     if k in BOOLS:
         return rng.choice([0, 1, 1])
     if k == "u":
-        return rng.choice([0, 1, 1, 2, 3]) if (cfg["colon"] or "under" in allow) else rng.choice([0, 1, 1])
+        return rng.choice([0, 1, 1, 2, 3]) if (cfg["colon"] or "under" in allow) else rng.choice([0, 1, 1, 2, 2])
     if k == "af":
         return rng.choice([-1, 0, 1, 2, 5, 8, 9, 9, rng.randrange(-1, 10), rng.choice([10, 11, 15]) if rng.random() < 0.15 else 3])
     if k == "sizepos":
@@ -156,8 +151,23 @@ def heavy_pen(cfg, allow):
     for k in ("fg", "bg"):
         idx = rng.choice([16, 100, 200, 255, cfg["colors"] - 1])
         p[k] = (min(idx, 255), (rgb_byte(), rgb_byte(), rgb_byte()) if rng.random() < 0.8 else None)
-    if cfg["colon"] or "under" in allow:
-        p["u"] = rng.choice([1, 2, 3])
+    p["u"] = rng.choice([1, 2, 3]) if (cfg["colon"] or "under" in allow) else rng.choice([1, 2])
+    return p
+
+
+def all_differ(cfg, l, allow):
+    """every attribute present and different from the logical pen, both colours with RGB: the most parameters a request can need"""
+    p = {}
+    for k in ATTRS:
+        if k in ("fg", "bg"):
+            p[k] = (rng.choice([16, 200, 255]), (rgb_byte(), rgb_byte(), rgb_byte()))
+            while l.get(k) == p[k]: p[k] = (rng.randrange(256), (rgb_byte(), rgb_byte(), rgb_byte()))
+        elif k in BOOLS: p[k] = 1 - l.get(k, 0)
+        elif k == "u": p[k] = rng.choice([v for v in ((1, 2, 3) if (cfg["colon"] or "under" in allow) else (1, 2)) if v != l.get(k, 0)])
+        elif k == "af": p[k] = rng.choice([v for v in range(1, 10) if v != l.get(k, 0)])
+        else: p[k] = rng.choice([v for v in (2, 3) if v != l.get(k, 0)])
+    if rng.random() < 0.5:
+        del p[rng.choice(BOOLS)]
     return p
 
 
@@ -191,8 +201,10 @@ def next_op(cfg, l, prev, allow):
         kind = "mutate-one"
     elif r < 0.86:
         p, kind = default_pen(cfg, l), "all-default"
-    elif r < 0.93:
+    elif r < 0.90:
         p, kind = heavy_pen(cfg, allow), "heavy"
+    elif r < 0.93:
+        p, kind = all_differ(cfg, l, allow), "heavy-all-differ"
     else:
         # exactly the logical pen again, by set: a total no-op
         p, kind, is_set = dict(l), "logical-again", True
@@ -206,20 +218,10 @@ def trim(cfg, l, p, is_set, allow):
         if not t:
             return p
         p = dict(p)
-        if "overflow" in t:
-            if "bg" in p and p["bg"][1] is not None: p["bg"] = (p["bg"][0], None)
-            elif "fg" in p and p["fg"][1] is not None: p["fg"] = (p["fg"][0], None)
-            elif p.get("u", 0) >= 2: p["u"] = 1
-            elif "bg" in p and p["bg"][0] >= 16: p["bg"] = (rng.randrange(16), None)
-            elif "fg" in p and p["fg"][0] >= 16: p["fg"] = (rng.randrange(16), None)
         if "under" in t:
-            p["u"] = rng.choice([0, 1])
+            p["u"] = rng.choice([0, 1, 2])
         if "small" in t:
             p["sizepos"] = rng.choice([0, 2, 3])
-        if "reemit" in t:
-            k = rng.choice(BOOLS)
-            cur = (total(p) if is_set else overlay(l, p)).get(k, 0)
-            p[k] = 1 - cur
     return None
 
 
@@ -257,19 +259,6 @@ def history(cfg, nops, allow, want=None):
     l, prev, seen = {}, None, set()
     for it in range(nops):
         is_set, p, kind = next_op(cfg, l, prev, allow)
-        if want == "overflow" and it == nops - 1:
-            # every attribute differs from the logical pen, both colours RGB: 17..19 parameters
-            p, kind, is_set = heavy_pen(cfg, allow), "heavy-all-differ", rng.random() < 0.5
-            for k in ATTRS:
-                if k in ("fg", "bg"):
-                    p[k] = (rng.choice([16, 200, 255]), (rgb_byte(), rgb_byte(), rgb_byte()))
-                    while l.get(k) == p[k]: p[k] = (rng.randrange(256), (rgb_byte(), rgb_byte(), rgb_byte()))
-                elif k in BOOLS: p[k] = 1 - l.get(k, 0)
-                elif k == "u": p[k] = rng.choice([v for v in (1, 2, 3) if v != l.get(k, 0)])
-                elif k == "af": p[k] = rng.choice([v for v in range(1, 10) if v != l.get(k, 0)])
-                else: p[k] = rng.choice([v for v in (2, 3) if v != l.get(k, 0)])
-            if rng.random() < 0.5:
-                del p[rng.choice(["b", "i", "rv", "strike", "blink"])]      # 17 or 18 is enough
         p = trim(cfg, l, p, is_set, allow)
         if p is None:
             continue
@@ -291,8 +280,6 @@ def history(cfg, nops, allow, want=None):
         for t1 in t: stats["trigger:" + t1] += 1
         out.append(("setpen " if is_set else "chpen ") + pen_text(p))
         l, prev = l2, p
-        if "overflow" in t:
-            break              # the rest of the history would only be CRASH lines
     if want and want not in seen:
         return False
     lines.append(new_line(cfg, grouped=not allow))
@@ -310,7 +297,7 @@ def basis(cfg):
         dict(DEFAULT),                                                # everything, all default
         {"b": 1}, {"b": 0},
         {"u": 1},
-        {"u": 2} if cfg["colon"] else {"u": 0},
+        {"u": 3} if cfg["colon"] else {"u": 2},
         {"fg": (3, None)}, {"fg": (12, None)},
         {"fg": (200, None)}, {"fg": (200, (10, 0, 255))},
         {"bg": (100, (1, 2, 3)), "rv": 1},
@@ -367,10 +354,8 @@ for _ in range(N):
 K = 3 if a.tier == "quick" else 12
 group_fill[0] = 0
 for _ in range(K):
-    for want, mk in (("overflow", lambda: {"kind": "x", "colors": 256, "rgb8": 1, "colon": rng.randint(0, 1), "how": "reply"}),
-                     ("under", lambda: dict(random_cfg(), colon=0)),
-                     ("small", lambda: random_cfg()),
-                     ("reemit", lambda: {"kind": "g", "colors": rng.choice([8, 16, 88]), "rgb8": 0, "colon": rng.randint(0, 1)})):
+    for want, mk in (("under", lambda: dict(random_cfg(), colon=0)),
+                     ("small", lambda: random_cfg())):
         for _try in range(50):
             if history(mk(), rng.choice([4, 8, 12]), {want}, want=want):
                 break
